@@ -447,6 +447,7 @@ pub(crate) fn decision_point(me: usize, cond: Cond, op: OpKind, obj: usize) {
             if let Some(f) = &rt.stop_flag {
                 f.store(true, Ordering::SeqCst);
                 rt.out.stop_injected_at = Some(step);
+                crate::io::mark_stop();
             }
         }
     }
